@@ -713,6 +713,18 @@ func ReachAssuming(fn *ssa.Function, from ssa.Instruction, target func(ssa.Instr
 	return reachRegion(fn, from, target, blocked, barrier, nil, "", nil)
 }
 
+// assumedNonNil: values the exploration starts out knowing to be non-nil (ReachAssumingNonNil).
+var assumedNonNil map[ssa.Value]bool
+
+// ReachAssumingNonNil is Reach under the assumption that the given values are not nil: "can the commit be reached
+// although the latched error is set?". Every edge that implies one of them nil - directly, or because it was merged
+// into a variable that is then tested - is contradictory.
+func ReachAssumingNonNil(fn *ssa.Function, from ssa.Instruction, target func(ssa.Instruction) bool, blocked map[Edge]bool, barrier func(ssa.Instruction) bool, nonNil map[ssa.Value]bool) ([]*ssa.BasicBlock, bool) {
+	assumedNonNil = nonNil
+	defer func() { assumedNonNil = nil }()
+	return reachRegion(fn, from, target, blocked, barrier, nil, "", nil)
+}
+
 // ReachFromBlock is Reach started at the first instruction of blk, a block of fn or of one of its expanded helpers
 // (in a helper the calling context is unknown: the helper's returns continue after each of its call sites).
 func ReachFromBlock(fn *ssa.Function, blk *ssa.BasicBlock, target func(ssa.Instruction) bool, blocked map[Edge]bool, barrier func(ssa.Instruction) bool) ([]*ssa.BasicBlock, bool) {
@@ -769,10 +781,13 @@ func reachRegion1(fn *ssa.Function, from ssa.Instruction, target func(ssa.Instru
 		items = append(items, it)
 	}
 	var seedPF *pathFacts
-	if withFacts && len(assumedBools) > 0 {
+	if withFacts && (len(assumedBools) > 0 || len(assumedNonNil) > 0) {
 		seedPF = (*pathFacts)(nil).clone()
 		for v, b := range assumedBools {
 			seedPF.bools[v] = b
+		}
+		for v := range assumedNonNil {
+			seedPF.nils[Strip(v)] = NonNil
 		}
 	}
 	if from == nil && startBlock != nil {
